@@ -1,5 +1,7 @@
 mod cmd_backend;
 mod cmd_stages;
+mod cmd_rvall;
+mod gen_rvmini;
 mod consts;
 mod pipe;
 mod rec;
@@ -71,6 +73,8 @@ fn main() {
             let which = &arg(1)[8..];
             cmd_backend::cmd_codegen(which, num(2, 1), num(3, 0) as usize, &mut *out, &args[5.min(args.len())..]);
         }
+        "codegen-all" => cmd_rvall::cmd_codegen_all(num(2, 1), num(3, 0) as usize, &mut *out, &args[5.min(args.len())..]),
+        "show-rvmini" => { use printer::Print; let mut r = Rng::new(num(2, 1)); for _ in 0..num(3, 1) { let p = gen_rvmini::program(&mut r.fork(), 14); println!("{}\n-- check: {:?}\n", p.print_to_string(None), gen_rvmini::check(&p)); } }
         "pm" => cmd_pm(num(2, 1), num(3, 100) as usize, &mut *out),
         "stages" => cmd_stages::cmd_stages(num(2, 1), num(3, 0) as usize, args.get(5..).unwrap_or(&[]), &mut *out),
         c => { eprintln!("unknown command {c}"); std::process::exit(2); }
